@@ -12,6 +12,12 @@ Eval vm_compute in (length all_cases, ok_all).
 Theorem psbt_cases_match_model : ok_all = true.
 Proof. vm_compute. reflexivity. Qed.
 
+(* PsbtInputSatisfier::check_after / check_older of the compiled code = the model's predicates on
+   every (version, nLockTime, nSequence, lock value) row of the run *)
+Eval vm_compute in (length tl_obs, length (filter (fun o => negb (tl_row_ok o)) tl_obs)).
+Theorem timelock_predicates_match_model : forallb tl_row_ok tl_obs = true.
+Proof. vm_compute. reflexivity. Qed.
+
 (* Placeholder::PubkeyHash completion of the compiled code = the model's resolve_pkh on every
    (input state, key hash) pair the run met *)
 Definition pkh_failing : list (N * option N) :=
